@@ -219,8 +219,12 @@ def apply_fault(case, world, vi, pos):
         cfgname = [".rustfmt.toml", "rustfmt.toml"][sub % 2]
         d = os.path.dirname(pos)
         p = os.path.join(d, cfgname)
-        which = (sub // 2) % 6
-        if which == 0:
+        which = (sub // 2) % 6 if sub < 900 else 6 + sub % 2
+        if which >= 6:
+            # well-formed TOML except that the file is not UTF-8 (a Latin-1 letter in a comment / after a value)
+            import base64
+            files[p] = {"b64": base64.b64encode([b"# r\xe9glages du projet\nmax_width = 90\n", b"max_width = 90 # tr\xe8s large\nhard_tabs = true\n"][which - 6]).decode()}
+        elif which == 0:
             files[p] = "max_width = \n"
         elif which == 1:
             files[p] = 'max_width = "wide"\n'
@@ -239,6 +243,9 @@ def apply_fault(case, world, vi, pos):
         if not is_root:
             return None
         files["badcfg/rustfmt.toml"] = ["max_width = \n", 'tab_spaces = "x"\n', 'required_version = "0.0.1"\n'][sub % 3]
+        if sub >= 900:
+            import base64
+            files["badcfg/rustfmt.toml"] = {"b64": base64.b64encode(b"# r\xe9glages\nmax_width = 90\n").decode()}
         extra = ["--config-path", "$ROOT/badcfg/rustfmt.toml"]
     elif kind == "noroot":
         if not is_root:
@@ -506,7 +513,7 @@ def _kindclass(kind, pos, case):
     where = "root" if t and t[0]["root"] == pos else "module"
     k = kind
     if kind == "badconfig":
-        k = "badconfig-%d" % ((case["sub"] // 2) % 6)
+        k = "badconfig-%d" % ((case["sub"] // 2) % 6 if case["sub"] < 900 else 6 + case["sub"] % 2)
     if kind == "panic":
         k = "panic-" + PANIC_SITES[case["sub"] % len(PANIC_SITES)]
     if kind == "open-errno":
